@@ -7,12 +7,12 @@ ASSUME_PY = ("own AST->z3 VC generator (pyvc) over the real source: Python seman
              "distinct parameters, partial correctness); dependencies through the named assumed contracts A-* of DESIGN §2.5")
 T = {
  "C01": ("exploration", "bounded check of the parser contract against an independent precedence-climbing reference parser "
-         "(all expression trees up to a leaf bound, several renderings) + ground structural obligations on the live Lark rule table",
-         "bounded enumeration vs reference parser; ground obligations on Lark rule table",
+         "(all expression trees up to a leaf bound, several renderings) + ground structural obligations on the live Lark rule table + token languages of all terminals decided over all of Unicode (regular-language equivalence, character sets from the re engine)",
+         "bounded enumeration vs reference parser; ground obligations on Lark rule table; automaton equivalence of the terminals",
          "Lark's Earley parser with ambiguity='resolve' is outside any verifier here (A-LARK-RESOLVE assumed for the structural argument); bounded, never counted as proved", "4 C01"),
  "C02": ("other", "exception-flow VCs ('only SyntaxError escapes', given A-LARK-PARSE/A-LARK-FOLD) on the three parsing entry points proved by z3; "
-         "accepted language decided by a bounded check against a reference recogniser",
-         "exception-flow VCs (z3) + bounded language check vs reference recogniser",
+         "token languages of all terminals of both grammars decided for all strings (regular-language equivalence over the full Unicode alphabet); accepted language as a whole decided by a bounded check against a reference recogniser",
+         "exception-flow VCs (z3) + automaton equivalence of the terminals (all of Unicode) + bounded language check vs reference recogniser",
          "A-LARK-PARSE (raise set of Lark.parse), A-LARK-FOLD (VisitError wrapping); language exactness is bounded only", "4 C02"),
  "C03": ("proof", "every path of __and__/__or__/__xor__ proved equal to the spec functions; algebraic laws, README rows, UNKNOWN soundness/tightness as lemmas; finite domain also enumerated on the real operators",
          "contract VCs from the AST discharged by z3 (finite sorts) + complete enumeration", ASSUME_PY, "4 C03"),
@@ -27,7 +27,7 @@ T = {
  "C08": ("proof", "Boolean value and 'message iff unfulfilled' invariant proved per callback and builder method; precedence inherited from C01 (bounded)",
          "contract VCs (z3) on FC transformer callbacks and message builder; bounded backstop", ASSUME_PY + "; A-LARK-FOLD; precedence = C01", "4 C08"),
  "C09": ("other", "selection loop / result plumbing proved by z3; indicator token callbacks decided by complete enumeration; AHB splitting by a bounded check against a reference splitter",
-         "loop-invariant VC (z3) + exhaustive token enumeration + bounded splitter check", ASSUME_PY + "; splitting is Lark (bounded only)", "4 C09"),
+         "loop-invariant VC (z3) + exhaustive token enumeration + automaton equivalence of the AHB terminals (all of Unicode) + bounded splitter check", ASSUME_PY + "; splitting is Lark (bounded only)", "4 C09"),
  "C10": ("other", "time-condition mapping, package lookup and order of expansion proved by z3; substitution identity decided by a bounded check against a textual oracle",
          "contract VCs (z3) + bounded check vs textual substitution oracle", ASSUME_PY + "; placeholder replacement pass is bounded only", "4 C10"),
  "C11": ("other", "ownership obligation on tree_copy.decorated (nothing reachable from the result is reachable from the cache) using Lark's own Tree.copy/__deepcopy__ source; bounded history replay",
